@@ -258,9 +258,11 @@ def impl_run(src):
         r = 'C parse: %s: %s' % (type(e).__name__, str(e)[:80])
         return r, r
     res = []
+    progs = []
     for ue in (False, True):
         try:
             prog = tree.evaluate(Environment.empty(unreachable_error=ue) if ue else Environment.empty())
+            progs.append(prog)
             f = prog.func_decls[-1]
             out = ['A %d %d' % (len(f.body.stmts), f.body.exit_modes().value)]
             for s in f.body.stmts:
@@ -274,6 +276,11 @@ def impl_run(src):
             res.append('X')
         except Exception as e:                             # noqa
             res.append('C evaluate: %s: %s' % (type(e).__name__, str(e)[:80]))
+    # C18: when both modes accept, the evaluated trees must be identical (dataclass equality of
+    # the whole Program; the modes, which do not take part in ==, are in the survey strings).
+    # The model proves this (Exit.lint_only_rejects), so the marker below can never match it.
+    if len(progs) == 2 and (progs[0] != progs[1] or res[0] != res[1]):
+        res[1] += ' LINT-CHANGES-TREE'
     return tuple(res)
 
 
@@ -705,6 +712,8 @@ def run(tier='quick', seed=0, workdir=None, exe=None):
                 seen.add(key)
                 if stats['blocks'] > 0 or len(t[2]) >= 2:
                     nontrivial += 1
+            if impl[i][0].startswith('A') and impl[i][1].startswith('A'):
+                hist['lint:both_accept:%s' % ('same_tree' if impl[i][0] == impl[i][1] else 'DIFFERENT_TREE')] += 1
             if impl[i] != model[i]:
                 dis.append(i)
         result['evaluations'] = 2 * len(tests)
